@@ -27,6 +27,25 @@ const vDefaultFP = "2B280B23E1107BB62ABFC40DDCC8824814F80A72"
 type vBridge struct {
 	FP  string // upper-case hex
 	URL string
+	// Sparse: how the record is written in the list file. 0 = all three
+	// members; 1 = no webSocketAddress member (URL must be ""); 2 =
+	// webSocketAddress null (URL must be ""); 3 = no displayName member
+	Sparse int
+}
+
+// line renders the record as one line of a bridge list file.
+func (br vBridge) line() []byte {
+	fp, _ := json.Marshal(br.FP)
+	u, _ := json.Marshal(br.URL)
+	switch br.Sparse {
+	case 1:
+		return []byte(`{"displayName":"b","fingerprint":` + string(fp) + "}\n")
+	case 2:
+		return []byte(`{"displayName":"b","webSocketAddress":null,"fingerprint":` + string(fp) + "}\n")
+	case 3:
+		return []byte(`{"fingerprint":` + string(fp) + `,"webSocketAddress":` + string(u) + "}\n")
+	}
+	return []byte(`{"displayName":"b","webSocketAddress":` + string(u) + `,"fingerprint":` + string(fp) + "}\n")
 }
 
 // vBroker is one independent broker instance wired exactly as main() wires it.
@@ -72,9 +91,7 @@ func newVBroker(id int, bridges []vBridge, allowed, presumed string) *vBroker {
 	if bridges != nil {
 		var sb strings.Builder
 		for _, br := range bridges {
-			j, _ := json.Marshal(map[string]string{"displayName": "b", "webSocketAddress": br.URL, "fingerprint": br.FP})
-			sb.Write(j)
-			sb.WriteString("\n")
+			sb.Write(br.line())
 		}
 		if err := ctx.InstallBridgeListProfile(strings.NewReader(sb.String()), allowed, presumed); err != nil {
 			panic("harness: bridge list rejected: " + err.Error())
